@@ -42,7 +42,7 @@ def node_cache_spec(B, dump, nid, prev=None):
         for i, st in enumerate(sets):
             st = [tuple(x) for x in st]
             parts.append((pre + f"cached set {i} is non-empty, inside the node and outside its successors",
-                          B.const(len(st) > 0 and all(in_space(x, S) for x in st) and (nd["skipped"] or not any(in_space(x, k) for x in st for k in kids)))))
+                          B.const(len(st) > 0 and all(in_space(x, S) for x in st) and not any(in_space(x, k) for x in st for k in kids))))
             if st:
                 s0 = tuple(seeds[i]) if seeds is not None and i < len(seeds) else st[0]
                 for y in B.states:
